@@ -1,5 +1,7 @@
 import CMacVerif.Lemmas.Predicates
 import CMacVerif.Lemmas.PredicatesFilter
+import CMacVerif.Util.Bits
+import Mathlib.Algebra.Order.Field.Rat
 import Mathlib.LinearAlgebra.Matrix.Determinant.Basic
 import Mathlib.Tactic.FinCases
 /-!
@@ -18,7 +20,7 @@ are the routines as coded (256- resp. 278-bit sign-magnitude integers, truncatin
 4. `filter_sound`: for EVERY rounding function with relative error ≤ 2⁻⁵³ applied after every
    operation, a decided filter returns the exact sign; hence adaptive = exact for all inputs.
 -/
-set_option exponentiation.threshold 1200
+set_option exponentiation.threshold 2000
 namespace CMacVerif.Predicates
 
 /-! ## 1. the exact routines compute the determinant -/
@@ -478,5 +480,260 @@ example (anchor sides : V3 ℝ) (hx : 0 < sides.x) (x : ℝ)
     rw [amax_real, amax_real]; exact le_trans (le_max_left _ _) (le_max_left _ _)
   have e9 : (9.0 : ℝ) = 9 := by norm_num
   rw [e9]; constructor <;> linarith
+
+/-! ## 6. the ROUNDED rescaling stays inside [1,2) -/
+
+/-- all three coordinates in [1,2) -/
+def In12 {fl : ℝ → ℝ} (p : V3 (Rnd fl)) : Prop :=
+  (1 ≤ p.x.val ∧ p.x.val < 2) ∧ (1 ≤ p.y.val ∧ p.y.val < 2) ∧ (1 ≤ p.z.val ∧ p.z.val < 2)
+
+/-- the tetrahedron spans a non-empty interval on every axis (as computed) -/
+def TetraPos {fl : ℝ → ℝ} (t : Tetra (Rnd fl)) : Prop :=
+  t.v0.x.val < t.v1.x.val ∧ t.v0.y.val < t.v2.y.val ∧ t.v0.z.val < t.v3.z.val
+
+/-- `p` lies, axis by axis, between the minimum and the maximum the extents are taken from -/
+def Within {fl : ℝ → ℝ} (t : Tetra (Rnd fl)) (p : V3 (Rnd fl)) : Prop :=
+  (t.v0.x.val ≤ p.x.val ∧ p.x.val ≤ t.v1.x.val) ∧ (t.v0.y.val ≤ p.y.val ∧ p.y.val ≤ t.v2.y.val) ∧
+    (t.v0.z.val ≤ p.z.val ∧ p.z.val ≤ t.v3.z.val)
+
+/-- **rescale_rounded_in_range**: for EVERY rounding function `fl` with relative error ≤ 2⁻⁵³ that
+is monotone and leaves 1 unchanged, applied after every operation of
+`1. + (x - min_anchor) / max_anchor` and of `max_anchor = (max - min) * (1 + 4 DBL_EPSILON)`:
+every point between the axis minima and maxima is mapped into [1,2)^3.  (With the former constant
+`1 + DBL_EPSILON` the statement is false: box (0,0,0)+(0.3,0.3,0.3), finding of round 1.) -/
+theorem rescale_rounded_in_range (fl : ℝ → ℝ) (hfl : ∀ x, |fl x - x| ≤ 1 / 2 ^ 53 * |x|)
+    (hmono : Monotone fl) (h1 : fl 1 = 1) (k : Rnd fl) (hk : k.val = 1 + 4 * (1 / 2 ^ 52))
+    (t : Tetra (Rnd fl)) (ht : TetraPos t) (p : V3 (Rnd fl)) (hp : Within t p) :
+    In12 (rescaleP p t.v0 (paddedExtent k t)) := by
+  have hk' : k.val = 1 + 8 * u := by rw [hk]; unfold u; ring
+  have hfl' : RndOK fl := hfl
+  exact ⟨rescale1_rounded hfl' hmono h1 p.x t.v0.x t.v1.x k hk' hp.1.1 hp.1.2 ht.1,
+    rescale1_rounded hfl' hmono h1 p.y t.v0.y t.v2.y k hk' hp.2.1.1 hp.2.1.2 ht.2.1,
+    rescale1_rounded hfl' hmono h1 p.z t.v0.z t.v3.z k hk' hp.2.2.1 hp.2.2.2 ht.2.2⟩
+
+/-- the four vertices of the all-encompassing tetrahedron of ANY box are rescaled into [1,2)^3
+(only premise: the tetrahedron is not degenerate as computed; no premise on the vertices: the
+coordinates of `boxTetra` that should be equal are the same expression) -/
+theorem rescaled_tetra_in_range (fl : ℝ → ℝ) (hfl : ∀ x, |fl x - x| ≤ 1 / 2 ^ 53 * |x|)
+    (hmono : Monotone fl) (h1 : fl 1 = 1) (k : Rnd fl) (hk : k.val = 1 + 4 * (1 / 2 ^ 52))
+    (anchor sides : V3 (Rnd fl)) (ht : TetraPos (boxTetra anchor sides)) :
+    In12 (rescaleBox k anchor sides).tet.v0 ∧ In12 (rescaleBox k anchor sides).tet.v1 ∧
+    In12 (rescaleBox k anchor sides).tet.v2 ∧ In12 (rescaleBox k anchor sides).tet.v3 := by
+  have key := rescale_rounded_in_range fl hfl hmono h1 k hk (boxTetra anchor sides) ht
+  obtain ⟨hx, hy, hz⟩ := ht
+  refine ⟨key _ ?_, key _ ?_, key _ ?_, key _ ?_⟩
+  · exact ⟨⟨le_refl _, hx.le⟩, ⟨le_refl _, hy.le⟩, ⟨le_refl _, hz.le⟩⟩
+  · exact ⟨⟨hx.le, le_refl _⟩, ⟨le_refl _, hy.le⟩, ⟨le_refl _, hz.le⟩⟩
+  · exact ⟨⟨le_refl _, hx.le⟩, ⟨hy.le, le_refl _⟩, ⟨le_refl _, hz.le⟩⟩
+  · exact ⟨⟨le_refl _, hx.le⟩, ⟨le_refl _, hy.le⟩, ⟨hz.le, le_refl _⟩⟩
+
+/-- box corners and generators: in range as soon as they lie between the tetrahedron's minima and
+maxima (premise evaluated on the real code for every generated box: oracle
+`rescale-premise-violated`) -/
+theorem rescaled_box_in_range (fl : ℝ → ℝ) (hfl : ∀ x, |fl x - x| ≤ 1 / 2 ^ 53 * |x|)
+    (hmono : Monotone fl) (h1 : fl 1 = 1) (k : Rnd fl) (hk : k.val = 1 + 4 * (1 / 2 ^ 52))
+    (anchor sides : V3 (Rnd fl)) (ht : TetraPos (boxTetra anchor sides))
+    (ha : Within (boxTetra anchor sides) anchor)
+    (hs : Within (boxTetra anchor sides)
+      ⟨anchor.x + sides.x, anchor.y + sides.y, anchor.z + sides.z⟩) :
+    In12 (rescaleBox k anchor sides).bottom ∧ In12 (rescaleBox k anchor sides).top :=
+  ⟨rescale_rounded_in_range fl hfl hmono h1 k hk _ ht _ ha,
+   rescale_rounded_in_range fl hfl hmono h1 k hk _ ht _ hs⟩
+
+/-- non-vacuity: exact arithmetic is such a rounding function, the unit box satisfies the premises -/
+example : ∃ (fl : ℝ → ℝ) (anchor sides : V3 (Rnd fl)), (∀ x, |fl x - x| ≤ 1 / 2 ^ 53 * |x|) ∧
+    Monotone fl ∧ fl 1 = 1 ∧ TetraPos (boxTetra anchor sides) ∧
+    Within (boxTetra anchor sides) anchor := by
+  refine ⟨id, ⟨⟨0⟩, ⟨0⟩, ⟨0⟩⟩, ⟨⟨1⟩, ⟨1⟩, ⟨1⟩⟩, fun x => by simp, monotone_id, rfl, ?_, ?_⟩
+  · simp only [TetraPos, boxTetra, amax, Rnd.add_val, Rnd.sub_val, Rnd.mul_val, Rnd.sci_val, id,
+      Rnd.lt_iff]
+    norm_num
+  · simp only [Within, boxTetra, amax, Rnd.add_val, Rnd.sub_val, Rnd.mul_val, Rnd.sci_val, id,
+      Rnd.lt_iff]
+    norm_num
+
+/-! ## 7. wall copies (real arithmetic) -/
+
+/-- mirroring commutes with the (affine) rescaling: the wall copy computed from the rescaled box
+and the rescaled generator is the rescaled wall copy -/
+theorem wall_copy_commutes (mn ext a x : ℝ) (hext : ext ≠ 0) :
+    2.0 * rescale1 a mn ext - rescale1 x mn ext = rescale1 (2.0 * a - x) mn ext := by
+  unfold rescale1
+  have e1 : (1.0 : ℝ) = 1 := by norm_num
+  have e2 : (2.0 : ℝ) = 2 := by norm_num
+  rw [e1, e2]; field_simp; ring
+
+/-- the wall copies of a generator inside the box lie between the tetrahedron's minimum and
+maximum of that axis (`side ≤ max_side`), so they are rescaled into [1,2) as well
+(x axis, LEFT and RIGHT wall; the other axes are the same statement) -/
+theorem wall_copy_in_range (anchor sides p : V3 ℝ) (ε : ℝ) (hε : 0 < ε) (hx : 0 < sides.x)
+    (h1 : anchor.x ≤ p.x) (h2 : p.x ≤ anchor.x + sides.x) (w : ℕ) (hw : w = 0 ∨ w = 1) :
+    let t := boxTetra anchor sides
+    1 ≤ rescale1 (wallCopy w anchor sides p).x t.v0.x (paddedExtent (1 + 4 * ε) t).x ∧
+      rescale1 (wallCopy w anchor sides p).x t.v0.x (paddedExtent (1 + 4 * ε) t).x < 2 := by
+  have hm : sides.x ≤ amax (amax sides.x sides.y) sides.z := by
+    rw [amax_real, amax_real]; exact le_trans (le_max_left _ _) (le_max_left _ _)
+  have e9 : (9.0 : ℝ) = 9 := by norm_num
+  have e2 : (2.0 : ℝ) = 2 := by norm_num
+  rcases hw with rfl | rfl
+  · apply rescale_box_in_range anchor sides ε _ hε hx
+    · simp only [wallCopy, e2]; linarith
+    · simp only [wallCopy, e2, e9]; linarith
+  · apply rescale_box_in_range anchor sides ε _ hε hx
+    · simp only [wallCopy, e2]; linarith
+    · simp only [wallCopy, e2, e9]; linarith
+
+/-! ## 8. `get_mantissa` and the value of the double
+
+`Util.ratOfBits` is the exact rational value of an IEEE-754 binary64 bit pattern (shared decoder of
+the drivers).  The doubles in [1,2) are exactly the patterns `pat12 m`, `m < 2^52`, and their value is
+`1 + mantissa / 2^52`: this is the hypothesis `Grid` / `OnGrid` of the filter theorems, discharged
+for every double. -/
+section Mantissa
+open CMacVerif.Util
+/-- bit pattern of the double with sign 0, biased exponent 1023 and mantissa field `m` -/
+def pat12 (m : ℕ) : ℕ := 1023 * 2 ^ 52 + m
+
+theorem mantissa_pat12 (m : ℕ) (hm : m < 2 ^ 52) : mantissa (pat12 m) = m := by
+  unfold mantissa pat12
+  have : (1023 * 2 ^ 52 + m) % 2 ^ 52 = m := by omega
+  rw [this]; rfl
+
+theorem value_pat12 (m : ℕ) (hm : m < 2 ^ 52) :
+    ratOfBits (pat12 m) = some (1 + (m : ℚ) / 2 ^ 52) := by
+  have h1 : pat12 m / 2 ^ 63 = 0 := by unfold pat12; omega
+  have h2 : pat12 m / 2 ^ 52 % 2048 = 1023 := by unfold pat12; omega
+  have h3 : pat12 m % 2 ^ 52 = m := by unfold pat12; omega
+  unfold ratOfBits
+  simp only [h1, h2, h3]
+  have c1 : ¬ ((1023 : ℕ) = 2047) := by decide
+  have c2 : ¬ ((0 : ℕ) = 1) := by decide
+  have c3 : ¬ ((1023 : ℕ) = 0) := by decide
+  rw [if_neg c1, if_neg c2]
+  simp only [if_neg c3]
+  have c4 : ¬ (((1023 : ℕ) : ℤ) - 1075 ≥ 0) := by norm_num
+  rw [if_neg c4]
+  have e5 : (-(((1023 : ℕ) : ℤ) - 1075)).toNat = 52 := by norm_num; rfl
+  rw [e5]
+  congr 1
+  rw [Rat.mkRat_eq_div]
+  push_cast
+  norm_num
+  ring
+
+/-- sign handling of `ratOfBits`: the value is `± mag` -/
+private theorem sign_cases {sg : ℕ} (hs : sg = 0 ∨ sg = 1) {mag q : ℚ}
+    (h : some (if sg = 1 then -mag else mag) = some q) (hmag : 0 ≤ mag) (h1 : 1 ≤ q) :
+    sg = 0 ∧ q = mag := by
+  rcases hs with hs | hs
+  · subst hs; simp at h; exact ⟨rfl, h.symm⟩
+  · subst hs; simp at h; exfalso; linarith
+
+/-- conversely: a finite double whose value lies in [1,2) has sign 0 and biased exponent 1023 -/
+theorem pattern_of_value (n : ℕ) (q : ℚ) (h : ratOfBits n = some q)
+    (h1 : 1 ≤ q) (h2 : q < 2) (hn : n < 2 ^ 64) : ∃ m, m < 2 ^ 52 ∧ n = pat12 m := by
+  have hm : n % 2 ^ 52 < 2 ^ 52 := Nat.mod_lt _ (by norm_num)
+  have he : n / 2 ^ 52 % 2048 < 2048 := Nat.mod_lt _ (by norm_num)
+  have hs : n / 2 ^ 63 = 0 ∨ n / 2 ^ 63 = 1 := by omega
+  refine ⟨n % 2 ^ 52, hm, ?_⟩
+  suffices hh : n / 2 ^ 63 = 0 ∧ n / 2 ^ 52 % 2048 = 1023 by
+    unfold pat12; omega
+  unfold ratOfBits at h
+  simp only at h
+  generalize n / 2 ^ 63 = sg at h hs ⊢
+  generalize n / 2 ^ 52 % 2048 = e at h he ⊢
+  generalize n % 2 ^ 52 = m at h hm ⊢
+  have hmq : ((m : ℕ) : ℚ) < 2 ^ 52 := by exact_mod_cast hm
+  have hm0 : (0 : ℚ) ≤ (m : ℚ) := Nat.cast_nonneg m
+  have two1 : (1 : ℚ) ≤ 2 := by norm_num
+  by_cases he2047 : e = 2047
+  · simp [he2047] at h
+  rw [if_neg he2047] at h
+  by_cases he0 : e = 0
+  · -- subnormal: value below 1
+    exfalso
+    subst he0
+    simp only [if_true] at h
+    have c : ¬ ((-1074 : ℤ) ≥ 0) := by norm_num
+    rw [if_neg c] at h
+    have e5 : (-(-1074 : ℤ)).toNat = 1074 := by norm_num; rfl
+    rw [e5, Rat.mkRat_eq_div] at h
+    have hmag0 : (0 : ℚ) ≤ ((m : ℤ) : ℚ) / ((2 ^ 1074 : ℕ) : ℚ) := by
+      apply div_nonneg <;> positivity
+    obtain ⟨-, hq⟩ := sign_cases hs h hmag0 h1
+    have : ((m : ℤ) : ℚ) / ((2 ^ 1074 : ℕ) : ℚ) < 1 := by
+      rw [div_lt_one (by positivity)]
+      push_cast
+      calc (m : ℚ) < 2 ^ 52 := hmq
+        _ ≤ 2 ^ 1074 := pow_le_pow_right₀ two1 (by norm_num)
+    linarith
+  · simp only [if_neg he0] at h
+    by_cases hbig : 1075 ≤ e
+    · -- huge exponent: value at least 2^52
+      exfalso
+      have c : ((e : ℤ) - 1075 ≥ 0) := by omega
+      rw [if_pos c] at h
+      have hmag : (2 : ℚ) ≤ (((m + 2 ^ 52) * 2 ^ ((e : ℤ) - 1075).toNat : ℕ) : ℚ) := by
+        push_cast
+        have : (1 : ℚ) ≤ 2 ^ ((e : ℤ) - 1075).toNat := one_le_pow₀ two1
+        have : (2 : ℚ) ^ 52 ≤ ((m : ℚ) + 2 ^ 52) * 2 ^ ((e : ℤ) - 1075).toNat := by nlinarith
+        have : (2 : ℚ) ≤ 2 ^ 52 := by norm_num
+        linarith
+      obtain ⟨-, hq⟩ := sign_cases hs h (by linarith) h1
+      linarith
+    · have c : ¬ ((e : ℤ) - 1075 ≥ 0) := by omega
+      rw [if_neg c] at h
+      obtain ⟨d, hd⟩ : ∃ d : ℕ, (-((e : ℤ) - 1075)).toNat = d ∧ d + e = 1075 :=
+        ⟨(-((e : ℤ) - 1075)).toNat, rfl, by omega⟩
+      rw [hd.1, Rat.mkRat_eq_div] at h
+      have hnum : (((m + 2 ^ 52 : ℕ) : ℤ) : ℚ) = (m : ℚ) + 2 ^ 52 := by push_cast; ring
+      have hden : ((2 ^ d : ℕ) : ℚ) = 2 ^ d := by push_cast; ring
+      rw [hnum, hden] at h
+      have hdpos : (0 : ℚ) < 2 ^ d := by positivity
+      have hmag0 : (0 : ℚ) ≤ ((m : ℚ) + 2 ^ 52) / 2 ^ d := by positivity
+      obtain ⟨hsg, hq⟩ := sign_cases hs h hmag0 h1
+      refine ⟨hsg, ?_⟩
+      by_contra hne
+      rcases Nat.lt_or_gt_of_ne hne with hlt | hgt
+      · -- e ≤ 1022: d ≥ 53, value below 1
+        have hd53 : 53 ≤ d := by omega
+        have : ((m : ℚ) + 2 ^ 52) / 2 ^ d < 1 := by
+          rw [div_lt_one hdpos]
+          calc (m : ℚ) + 2 ^ 52 < 2 ^ 52 + 2 ^ 52 := by linarith
+            _ = 2 ^ 53 := by norm_num
+            _ ≤ 2 ^ d := pow_le_pow_right₀ two1 hd53
+        linarith
+      · -- e ≥ 1024: d ≤ 51, value at least 2
+        have hd51 : d ≤ 51 := by omega
+        have : (2 : ℚ) ≤ ((m : ℚ) + 2 ^ 52) / 2 ^ d := by
+          rw [le_div_iff₀ hdpos]
+          calc (2 : ℚ) * 2 ^ d ≤ 2 * 2 ^ 51 :=
+                mul_le_mul_of_nonneg_left (pow_le_pow_right₀ two1 hd51) (by norm_num)
+            _ = 2 ^ 52 := by norm_num
+            _ ≤ (m : ℚ) + 2 ^ 52 := by linarith
+        linarith
+
+/-- **get_mantissa_value**: for EVERY finite double whose value `q` lies in [1,2), `get_mantissa`
+returns the 52-bit integer `m` with `q = 1 + m / 2^52` -/
+theorem get_mantissa_value (n : ℕ) (q : ℚ) (h : ratOfBits n = some q) (h1 : 1 ≤ q) (h2 : q < 2)
+    (hn : n < 2 ^ 64) :
+    q = 1 + (mantissa n : ℚ) / 2 ^ 52 ∧ 0 ≤ mantissa n ∧ mantissa n < 2 ^ 52 := by
+  obtain ⟨m, hm, rfl⟩ := pattern_of_value n q h h1 h2 hn
+  have hv := value_pat12 m hm
+  rw [hv] at h
+  have hq : q = 1 + (m : ℚ) / 2 ^ 52 := (Option.some.inj h).symm
+  rw [mantissa_pat12 m hm]
+  refine ⟨by rw [hq]; push_cast; ring, Int.natCast_nonneg _, by exact_mod_cast hm⟩
+
+/-- non-vacuity: 1.5 = pattern 0x3FF8000000000000 -/
+example : ratOfBits 0x3FF8000000000000 = some (3 / 2) ∧ mantissa 0x3FF8000000000000 = 2 ^ 51 := by
+  constructor
+  · have := value_pat12 (2 ^ 51) (by norm_num)
+    have e : pat12 (2 ^ 51) = 0x3FF8000000000000 := by norm_num [pat12]
+    rw [e] at this; rw [this]; norm_num
+  · have := mantissa_pat12 (2 ^ 51) (by norm_num)
+    have e : pat12 (2 ^ 51) = 0x3FF8000000000000 := by norm_num [pat12]
+    rw [e] at this; rw [this]; norm_num
+end Mantissa
 
 end CMacVerif.Predicates
